@@ -463,7 +463,7 @@ func (m *Machine) DefineOwnProperty(o *Object, p string, d Desc, throw bool) boo
 			}
 		}
 		nv := NumV(float64(newLen))
-		newLenDesc.V = &nv    // 3.e
+		newLenDesc.V = &nv // 3.e
 		if m.LengthEqualRejects && newLen == oldLen && !oldLenDesc.W {
 			return reject()
 		}
